@@ -95,6 +95,7 @@ Definition wants_split (x : chunk) (size : Z) : bool := c_sz x >? w64 (size + (N
 Definition ha_alloc_raw (chunks : list chunk) (bins : list (list Z)) (size : Z)
   : list chunk * list (list Z) * Z :=
   if size =? 0 then (chunks, bins, 0)
+  else if size_too_large size then (chunks, bins, 0)
   else
     let size := aligned_size size in
     let bi0 := get_bin_index size in
@@ -151,12 +152,24 @@ Definition ha_dealloc_raw (chunks : list chunk) (bins : list (list Z)) (p : Z)
           HOk (pre1 ++ head2 :: post2, bins_add bins2 (c_sz head2) (c_addr head2))
     end.
 
-(* the tail of realloc: split the (used) chunk x down to [size] when worthwhile *)
+(* the tail of realloc: split the (used) chunk x down to [size] when worthwhile; the remainder
+   is merged with the chunk after it when that chunk is free *)
 Definition ha_shrink (pre : list chunk) (x : chunk) (post : list chunk) (bins : list (list Z)) (size p : Z)
   : list chunk * list (list Z) * Z :=
   if (c_sz x >? size) && wants_split x size then
-    (pre ++ mkchunk (c_addr x) size true :: mkchunk (split_addr x size) (split_rest x size) false :: post,
-     bins_add bins (split_rest x size) (split_addr x size), p)
+    match post with
+    | nx :: post' =>
+        if c_used nx then
+          (pre ++ mkchunk (c_addr x) size true :: mkchunk (split_addr x size) (split_rest x size) false :: post,
+           bins_add bins (split_rest x size) (split_addr x size), p)
+        else
+          let rest := w64 (w64 (split_rest x size + NODE) + c_sz nx) in
+          (pre ++ mkchunk (c_addr x) size true :: mkchunk (split_addr x size) rest false :: post',
+           bins_add (bins_remove bins (get_bin_index (c_sz nx)) (c_addr nx)) rest (split_addr x size), p)
+    | [] =>
+        (pre ++ mkchunk (c_addr x) size true :: mkchunk (split_addr x size) (split_rest x size) false :: post,
+         bins_add bins (split_rest x size) (split_addr x size), p)
+    end
   else (pre ++ x :: post, bins, p).
 
 Definition ha_realloc_raw (chunks : list chunk) (bins : list (list Z)) (p size : Z)
@@ -174,6 +187,7 @@ Definition ha_realloc_raw (chunks : list chunk) (bins : list (list Z)) (p size :
     | None => HPanic
     | Some (pre, x, post) =>
         if negb (c_used x) then HPanic
+        else if size_too_large size then HOk (chunks, bins, 0)
         else
           let size := aligned_size size in
           let move (_ : unit) :=
